@@ -42,10 +42,10 @@ def main():
         meta["confirmed"]["existing_test_failures"] = fails[:5]
         dst = os.path.join(wt, demodir, "zz_seed_demo_test.go")
         shutil.copy(demo, dst)
-        rc1, out1 = sh("go test -vet=off -count=1 ./%s" % demodir, cwd=wt)
+        rc1, out1 = sh("go test -vet=off -count=1 -run TestSeedDemo ./%s" % demodir, cwd=wt)
         meta["confirmed"]["demo_fails_with_change"] = rc1 != 0
         sh("git apply -R %s" % patch, cwd=wt)
-        rc2, out2 = sh("go test -vet=off -count=1 ./%s" % demodir, cwd=wt)
+        rc2, out2 = sh("go test -vet=off -count=1 -run TestSeedDemo ./%s" % demodir, cwd=wt)
         jo = [l for l in out2.splitlines() if l.startswith("--- FAIL") and "TestJoin" not in l and "TestNewClient" not in l]
         meta["confirmed"]["demo_passes_without_change"] = rc2 == 0 or len(jo) == 0
         meta["ran"] = ["git apply patch.diff (scratch worktree)", "go build ./...", "go test -vet=off -count=1 " + pk, "demo test with / without the change"]
